@@ -39,7 +39,10 @@ def parseCfg (s : String) (tag : Nat) : Agent :=
     checkInterval := ms (lookNat l "ci" 200), hostWait := ms (lookNat l "hw" 0), srflxWait := ms (lookNat l "sw" 500),
     prflxWait := ms (lookNat l "pw" 1000), relayWait := ms (lookNat l "rw" 2000),
     enableRenomination := lookBool l "renom", useCandCheckPriority := lookBool l "ucp",
-    blockedIPs := ((look l "blk").map fun v => (v.splitOn "+").filterMap String.toNat?).getD [] }
+    blockedIPs := ((look l "blk").map fun v => (v.splitOn "+").filterMap String.toNat?).getD [],
+    -- `auto=<ms>`: WithAutomaticRenomination(ms); an interval of 0 keeps the default of 3 s
+    autoRenom := (look l "auto").isSome,
+    renomInterval := if lookNat l "auto" 0 > 0 then ms (lookNat l "auto" 0) else 3000000000 }
   { cfg := cfg, tieBreaker := lookNat l "tb" 0, localUfrag := tok ((look l "u").getD ""), localPwd := tok ((look l "p").getD ""), tag := tag }
 
 def parseTid (s : String) : Option Nat :=
@@ -96,7 +99,7 @@ def showPair (a : Agent) (p : Pair) : String :=
   let rc := a.remoteOf p.r
   let ra := (rc.map (·.addr)).getD 0
   let rt := (rc.map (·.ty)).getD 0
-  s!"{p.id}:{la}>{ra}:{rt}:{p.state.str}:n{b01 p.nominated}d{b01 p.nomOnSuccess}v{showOpt p.deferredNom}:c{p.reqCount}:p{a.pairPrio p}:q{p.reqSent}/{p.reqRecv}/{p.respSent}/{p.respRecv}:k{p.pktSent}/{p.pktRecv}/{p.bytesSent}/{p.bytesRecv}"
+  s!"{p.id}:{la}>{ra}:{rt}:{p.state.str}:n{b01 p.nominated}d{b01 p.nomOnSuccess}v{showOpt p.deferredNom}:c{p.reqCount}:p{a.pairPrio p}:q{p.reqSent}/{p.reqRecv}/{p.respSent}/{p.respRecv}:k{p.pktSent}/{p.pktRecv}/{p.bytesSent}/{p.bytesRecv}:t{p.rtt}/{showMs p.lastResp}"
 
 /-- tcptype mark of the digest: `^a` active, `^p` passive, `^s` simultaneous-open, nothing when unspecified -/
 def ttMark (tt : Nat) : String := if tt == 1 then "^a" else if tt == 2 then "^p" else if tt == 3 then "^s" else ""
@@ -128,7 +131,7 @@ def showAgent (a : Agent) (outs : List Out) : String :=
   ";P[" ++ ",".intercalate pairs ++ "];R[" ++ ",".intercalate ((byNet a.remotes).map showRemote) ++
   "];L[" ++ ",".intercalate ((byNet a.locals).map showLocal) ++
   "];cs[" ++ ",".intercalate cs ++ "];sp[" ++ ",".intercalate sp ++ "];ca[" ++ ",".intercalate ca ++
-  s!"];bs={a.connBytesSent};br={a.connBytesRecv};pend={a.pending.length}"
+  s!"];bs={a.connBytesSent};br={a.connBytesRecv};pend={a.pending.length};ar={showMs a.lastRenomTime}/{a.nomCounter}"
 
 def resOf (outs : List Out) : String :=
   match outs.filterMap fun | .res r => some r | _ => none with
